@@ -273,6 +273,12 @@ Fixpoint paths (l : list stmt) : list (list atom * bool) :=
   | x :: l' => seq_paths (paths_s x) (paths l')
   end.
 
+(* a path on which the flow FINISHES (successfully): it runs off the end, or executes `return`
+   (an early exit is a normal end of the flow: callers awaiting it proceed); `abort` and the
+   failure of an awaited flow are not *)
+Definition finishes (pl : list atom * bool) : bool :=
+  snd pl || existsb (fun a => match a with AReturn => true | _ => false end) (fst pl).
+
 Definition args_eqb (a b : list (string * string)) : bool :=
   (List.length a =? List.length b)%nat &&
   forallb (fun p => String.eqb (fst (fst p)) (fst (snd p)) && String.eqb (snd (fst p)) (snd (snd p))) (combine a b).
@@ -297,7 +303,7 @@ Fixpoint preceded (gate tgt : atom -> bool) (seen : bool) (p : list atom) : bool
 (* `_user_said`: the flow finishes (the `user said` event is released) only after
    `await run input rails $user_message`, with $user_message assigned from the transcript *)
 Definition v2_user_said_ok (body : list stmt) : bool :=
-  forallb (fun pl => negb (snd pl) ||
+  forallb (fun pl => negb (finishes pl) ||
                      (existsb (is_await "run input rails" [("$0", "$user_message")]) (fst pl) &&
                       preceded (fun a => match a with AAssign "user_message" "$text" => true | _ => false end)
                                (is_await_name "run input rails") false (fst pl)))
@@ -314,9 +320,10 @@ Definition v2_bot_say_ok (body : list stmt) : bool :=
                                        is_await "UtteranceBotAction" [("script", "$text")] a) (fst pl))
           (paths body).
 
-(* `run input rails` / `run output rails`: the user's rails flow is awaited with the text, when defined *)
+(* `run input rails` / `run output rails`: on EVERY path on which the flow finishes - including any
+   early `return` - the user's rails flow was awaited with the text, unless it is not defined *)
 Definition v2_run_rails_ok (body : list stmt) (exist_var rails_flow text_var : string) : bool :=
-  forallb (fun pl => negb (snd pl) || existsb (is_cond exist_var false) (fst pl) ||
+  forallb (fun pl => negb (finishes pl) || existsb (is_cond exist_var false) (fst pl) ||
                      existsb (is_await rails_flow [("$0", text_var)]) (fst pl))
           (paths body).
 
@@ -344,5 +351,5 @@ Definition v2_resets_on_failure (body : list stmt) : bool :=
    flow does not finish normally - every such path ends in `abort` (or in the failure of an
    awaited flow), for BOTH settings of enable_rails_exceptions *)
 Definition v2_reject_aborts (body : list stmt) (cond : string) : bool :=
-  forallb (fun pl => negb (snd pl) || negb (existsb (is_cond cond true) (fst pl))) (paths body) &&
+  forallb (fun pl => negb (finishes pl) || negb (existsb (is_cond cond true) (fst pl))) (paths body) &&
   existsb (fun pl => existsb (is_cond cond true) (fst pl)) (paths body).
